@@ -6,6 +6,18 @@ from __future__ import annotations
 import liesel.model as lsl
 
 
+POISON = "!"      # a value every node function refuses (raises) - exception paths of the update sweep
+
+
+class Poisoned(Exception):
+    pass
+
+
+def _check(xs):
+    if any(str(x) == POISON for x in xs):
+        raise Poisoned("poisoned argument")
+
+
 class Term(str):
     """String term that survives liesel's _reduced_sum (0 + term)."""
 
@@ -118,6 +130,7 @@ class GraphRun:
 
     def _fn(self, i, kind):
         def fn(*xs):
+            _check(xs)
             if kind == "c":
                 self.calls.append(i)
             return Term(f"f{i}(" + ",".join(str(x) for x in xs) + ")")
@@ -131,6 +144,7 @@ class GraphRun:
                 self.params = params
 
             def log_prob(self, x):
+                _check((*self.params, x))
                 if kind == "d":
                     run.calls.append(i)
                 return Term(f"f{i}(" + ",".join(str(v) for v in (*self.params, x)) + ")")
@@ -139,38 +153,65 @@ class GraphRun:
     # ---- observation ---------------------------------------------------------------
     def snapshot(self):
         calls = list(self.calls)          # reading transient values below must not count
-        val = [str(self.model.nodes[f"n{i}"].value) for i in range(1, self.n + 1)]
+
+        def read(i):
+            try:
+                return str(self.model.nodes[f"n{i}"].value)
+            except Exception:  # noqa: BLE001  (a transient node over a poisoned input raises when read)
+                return "ERR"
+        val = [read(i) for i in range(1, self.n + 1)]
         outd = [bool(self.model.nodes[f"n{i}"].outdated) for i in range(1, self.n + 1)]
         self.calls.clear()
         return {"val": val, "outd": outd, "evald": calls}
 
-    def header(self):
+    HIDDEN = ("_model_log_lik", "_model_log_prior", "_model_log_prob")
+
+    def header(self, hidden=False):
+        """hidden: the model's own total nodes are appended to the graph (ids n+1..n+3, caching, never observed)
+        and the model's real sweep order is logged - needed where a sweep can be aborted by an exception (only for
+        plans whose distribution nodes are free-standing: log_lik / log_prior then have no inputs)."""
         snap = self.snapshot()
         init = [v if SPEC_KIND[p["kind"]] not in ("t", "p") else "-" for v, p in zip(snap["val"], self.plan)]
-        return {"n": self.n, "kind": [SPEC_KIND[p["kind"]] for p in self.plan],
-                "inp": [p["inp"] for p in self.plan], "init": init,
-                "plan_kinds": [p["kind"] for p in self.plan]}
+        hdr = {"n": self.n, "kind": [SPEC_KIND[p["kind"]] for p in self.plan],
+               "inp": [p["inp"] for p in self.plan], "init": init,
+               "plan_kinds": [p["kind"] for p in self.plan]}
+        if hidden:
+            dists = [i for i, p in enumerate(self.plan, start=1) if p["kind"] in ("d", "e")]
+            ids = {f"n{i}": i for i in range(1, self.n + 1)}
+            ids.update({nm: self.n + 1 + k for k, nm in enumerate(self.HIDDEN)})
+            assert all(not self.model.nodes[h].inputs for h in self.HIDDEN[:2])
+            hdr.update({"n": self.n + 3, "nobs": self.n, "kind": hdr["kind"] + ["c", "c", "c"],
+                        "inp": hdr["inp"] + [[], [], dists],
+                        "init": init + [str(self.model.nodes[h].value) for h in self.HIDDEN],
+                        "order": [ids[nd.name] for nd in self.model._sorted_nodes if nd.name in ids]})
+        return hdr
 
     # ---- operations ------------------------------------------------------------------
     def op(self, o):
         m = self.model
         ev = dict(o)
-        if o["ev"] == "assign":
-            i = o["n"]
-            if i in self.vars and o.get("via_var"):
-                self.vars[i].value = Term(o["x"])
-            else:
-                m.nodes[f"n{i}"].value = Term(o["x"])
-        elif o["ev"] == "set_auto":
-            m.auto_update = o["b"]
-        elif o["ev"] == "update_all":
-            m.update()
-        elif o["ev"] == "update_targets":
-            m.update(*[f"n{i}" for i in o["targets"]])
-        elif o["ev"] == "save":
-            self.slots.append(m.state)
-        elif o["ev"] == "restore":
-            m.state = self.slots[o["slot"] - 1]
+        ev["raised"] = False
+        try:
+            if o["ev"] == "assign":
+                i = o["n"]
+                if i in self.vars and o.get("via_var"):
+                    self.vars[i].value = Term(o["x"])
+                else:
+                    m.nodes[f"n{i}"].value = Term(o["x"])
+            elif o["ev"] == "set_auto":
+                m.auto_update = o["b"]
+            elif o["ev"] == "update_all":
+                m.update()
+            elif o["ev"] == "update_targets":
+                m.update(*[f"n{i}" for i in o["targets"]])
+            elif o["ev"] == "save":
+                self.slots.append(m.state)
+            elif o["ev"] == "restore":
+                m.state = self.slots[o["slot"] - 1]
+        except Exception as ex:  # noqa: BLE001  (a node function raised: the operation is aborted where it stands)
+            if not isinstance(ex, Poisoned) and not isinstance(ex.__cause__, Poisoned):
+                raise
+            ev["raised"] = True
         ev.update(self.snapshot())
         return ev
 
@@ -195,6 +236,16 @@ def gen_ops(rng, plan, nops, atoms=("a", "b", "c")):
                     {"ev": "update_targets", "targets": tgt},
                     {"ev": "assign", "n": rng.choice(vals), "x": rng.choice(atoms) + str(rng.randint(3, 5)), "via_var": True},
                     {"ev": "update_targets", "targets": tgt}, {"ev": "update_all"}]
+        elif r < 0.22 and vals:
+            # a value some node function refuses: the sweep is aborted by the exception; later the value is repaired
+            i = rng.choice(vals)
+            ops += [{"ev": "set_auto", "b": rng.random() < 0.7},
+                    {"ev": "assign", "n": i, "x": POISON, "via_var": rng.random() < 0.5},
+                    rng.choice([{"ev": "update_all"}, {"ev": "update_targets", "targets": [rng.randint(1, len(plan))]}, {"ev": "save"}]),
+                    {"ev": "assign", "n": rng.choice(vals), "x": rng.choice(atoms) + str(rng.randint(0, 2)), "via_var": False},
+                    {"ev": "update_all"},
+                    {"ev": "assign", "n": i, "x": rng.choice(atoms) + str(rng.randint(0, 2)), "via_var": False},
+                    {"ev": "update_all"}]
         elif r < 0.45:
             i = rng.choice(vals)
             ops.append({"ev": "assign", "n": i, "x": rng.choice(atoms) + str(rng.randint(0, 2)),
@@ -217,7 +268,7 @@ def gen_ops(rng, plan, nops, atoms=("a", "b", "c")):
 def random_trace(rng, nmax=8, maxops=30):
     plan = gen_plan(rng, nmax)
     run = GraphRun(plan)
-    hdr = run.header()
+    hdr = run.header(hidden=True)
     ops = gen_ops(rng, plan, rng.randint(5, maxops))
     ev = [run.op(o) for o in ops]
     hdr["ops"] = ops
@@ -230,6 +281,6 @@ def replay_trace(hdr):
         if idx + 1 < len(plan) and plan[idx + 1]["kind"] == "p" and plan[idx + 1]["inp"] == [idx + 1]:
             p["wrapped"] = True
     run = GraphRun(plan)
-    h = run.header()
+    h = run.header(hidden=True)
     h["ops"] = hdr["ops"]
     return {"hdr": h, "ev": [run.op(o) for o in hdr["ops"]]}
